@@ -126,6 +126,12 @@ DC_SPECS = {
                       fields=[_f('a', 'int'), _f('h', ['list', 'int'], init=False, exclude=True, compare=False, repr=False),
                               _f('c', 'str', ['value', "'c'"])],
                       init_false_setter=[['h', '[]']]),
+    # class-level rename style together with a field that has aliases (the Python name stays an input name of that field)
+    'dc_renalias': dict(name='DcRenalias', opts={'rename': 'camel'},
+                        fields=[_f('max_retries', 'int', aliases=['retries']), _f('colour_name', 'str', ['value', "'red'"])]),
+    # an output name that is not an input name: read under the Python name only
+    'dc_outname': dict(name='DcOutname', opts={},
+                       fields=[_f('size', 'int', out_name='len'), _f('note', 'str', ['value', "'n'"])]),
     # a class that is not frozen and whose __post_init__ fills a field in by ordinary attribute assignment
     'dc_assign': dict(name='DcAssign', opts={'in_format': ['struct', 'tuple'], 'frozen': False},
                       fields=[_f('a', 'int'), _f('h', 'str', init=False, exclude=True, compare=False, repr=False),
@@ -349,7 +355,7 @@ HASHABLE_LEAVES = ['int', 'float', 'complex', 'str', 'bytes', 'bool', 'none', 'd
 CORE_LEAVES = ['int', 'float', 'str', 'bool', 'none', 'bytes', 'decimal', 'any']
 KEY_LEAVES = ['str', 'int', 'float', 'enum_str', 'lit_str', 'date']
 
-CONDS = ['positive', 'len_le2', 'nonempty', 'raises', 'or_raises']
+CONDS = ['positive', 'len_le2', 'nonempty', 'raises', 'or_raises', 'len_0']
 EXT_CONDS = ['nonbool', 'even']       # user predicates: returns a non-bool truthy/falsy value; a pure parity test
 
 
@@ -363,6 +369,8 @@ def cond_obj(name):
             c = A.len_range(max=2)
         elif name == 'nonempty':
             c = A.NonEmpty
+        elif name == 'len_0':
+            c = A.len_range(max=0)          # a bound that is falsy: still a bound
         elif name == 'raises':
             def boom(v):
                 raise PredicateBoom("predicate exploded")       # not in any builtin exception family
@@ -397,6 +405,8 @@ def cond_eval(name, image):
             return len(image) <= 2
         if name == 'nonempty':
             return len(image) != 0
+        if name == 'len_0':
+            return len(image) <= 0
         if name in ('raises', 'or_raises'):
             return 'raise'
     except Exception:
